@@ -4,6 +4,7 @@ package vh
 // the evidence file, failure files, journal + watchdog, known findings.
 
 import (
+	"bytes"
 	"encoding/json"
 	"flag"
 	"fmt"
@@ -48,9 +49,9 @@ type Ctx struct {
 // matches the predicate of the open known finding id.
 func (x *Ctx) Exclude(id string) { x.excluded = append(x.excluded, id) }
 
-func (x *Ctx) Label(l string)   { x.labels = append(x.labels, l) }
-func (x *Ctx) NonTrivial()      { x.nontrivial = true }
-func (x *Ctx) SetSample(s any)  { x.sample = s }
+func (x *Ctx) Label(l string)  { x.labels = append(x.labels, l) }
+func (x *Ctx) NonTrivial()     { x.nontrivial = true }
+func (x *Ctx) SetSample(s any) { x.sample = s }
 func (x *Ctx) LabelIf(c bool, l string) {
 	if c {
 		x.labels = append(x.labels, l)
@@ -99,22 +100,22 @@ func outDir() string {
 const maxHashes = 150000
 
 type Stats struct {
-	mu          sync.Mutex
-	Property    string           `json:"property"`
-	Check       string           `json:"check"`
-	Cases       int64            `json:"cases"`
-	NonTrivial  int64            `json:"nontrivial_evaluations"`
-	Hashes      []uint64         `json:"hashes"`
-	HashCapped  bool             `json:"hash_capped"`
-	Labels      map[string]int64 `json:"labels"`
-	Samples     []sampleEntry    `json:"samples"`
-	Excluded    map[string]int64 `json:"excluded_known"`
+	mu         sync.Mutex
+	Property   string           `json:"property"`
+	Check      string           `json:"check"`
+	Cases      int64            `json:"cases"`
+	NonTrivial int64            `json:"nontrivial_evaluations"`
+	Hashes     []uint64         `json:"hashes"`
+	HashCapped bool             `json:"hash_capped"`
+	Labels     map[string]int64 `json:"labels"`
+	Samples    []sampleEntry    `json:"samples"`
+	Excluded   map[string]int64 `json:"excluded_known"`
 	// ExtraDistinct counts non-trivial cases that are distinct by construction
 	// (exhaustive enumerations) and therefore not hashed.
-	ExtraDistinct int64 `json:"extra_distinct"`
-	Exhaustive  map[string]any   `json:"exhaustive,omitempty"`
-	Notes       []string         `json:"notes,omitempty"`
-	hashSet     map[uint64]struct{}
+	ExtraDistinct int64          `json:"extra_distinct"`
+	Exhaustive    map[string]any `json:"exhaustive,omitempty"`
+	Notes         []string       `json:"notes,omitempty"`
+	hashSet       map[uint64]struct{}
 }
 
 type sampleEntry struct {
@@ -316,7 +317,12 @@ func Guard(classPrefix string, fn func() *Failure) (f *Failure) {
 	defer func() {
 		if r := recover(); r != nil {
 			site := panicSite()
-			f = &Failure{Class: classPrefix + "/panic/" + site, Msg: fmt.Sprintf("panic: %v\n%s", r, trimStack(debug.Stack()))}
+			stack := debug.Stack()
+			cls := classPrefix + "/panic/" + site
+			if site == "outside-plenc" && bytes.Contains(stack, []byte("vh.(*Sched)")) {
+				cls = "harness/scheduler-panic" // a bug of the harness itself: reported as inconclusive
+			}
+			f = &Failure{Class: cls, Msg: fmt.Sprintf("panic: %v\n%s", r, trimStack(stack))}
 		}
 	}()
 	return fn()
